@@ -351,6 +351,18 @@ func (e *cellEnv) runCell(run *report.Run, mode, kind, intake, backend, desc, ke
 		if !rev0 {
 			return viol("previous-entry-lost", "an entry present in both versions is not rejected after the refresh")
 		}
+		if !acc {
+			// the same unacceptable CRL is offered at every following refresh as well
+			for i := 2; i <= 3; i++ {
+				chk.Refresh()
+				if revN, _ := chk.Ask(leaf(l1, true)); revN {
+					return viol("unacceptable-refresh-in-force-at-repeated-refresh", fmt.Sprintf("the unacceptable CRL was refused at the first refresh but is in force after refresh %d", i))
+				}
+			}
+			if rev0, perr := chk.Ask(leaf(l0, true)); !rev0 || perr != nil {
+				return viol("previous-lost-at-repeated-refresh", fmt.Sprintf("after repeated refused refreshes the previous CRL is not in force any more (err=%v)", perr))
+			}
+		}
 		return true
 
 	case "restart-alone":
